@@ -12,7 +12,7 @@
    That the answers of the probes reflect the real state of $topdir/.Trash is the file system's business:
    decided by the check's oracle over all .Trash states x five commands.  Proofs in Proofs/SecProofs.v. *)
 From TV Require Import Prelude.Str Prelude.PosixPath Prog.Prog Cmd.Put Cmd.Scan Cmd.Restore Cmd.ListCmd
-  Proofs.ProgProofs Proofs.SecProofs.
+  Proofs.ProgProofs Proofs.SecProofs Proofs.StaticScan Proofs.StaticRestore.
 Open Scope N_scope.
 
 Theorem scanner_announces_top1_only_secured : forall uid v,
@@ -48,3 +48,31 @@ Proof. vm_compute. reflexivity. Qed.
 Example write_without_evidence_rejected :
   accepts (hist_step is_mutator ($"/v/.Trash")) [] [(Lexists ($"/v/.Trash"), RBool true); (Makedirs ($"/v/.Trash/0") 448, RUnit)] = None.
 Proof. vm_compute. reflexivity. Qed.
+
+(* ---- the same rule read off the declarative lists of the static theorems (C09 StaticScan, C13 StaticRestore) ----
+   Under a file system that holds still, the scan of trash-list / -empty / -rm hands $topdir/.Trash/$uid to its consumer, and
+   trash-restore searches it, only when $topdir/.Trash is a directory with the sticky bit that is not a symbolic link. *)
+Theorem shared_directory_listed_only_when_secure : forall fs uid v td vol,
+  In (Found td vol) (top_events_of fs uid v) ->
+  td = join3 v ($".Trash") (dec_of_N uid) /\ vol = v
+  /\ fs_true fs (Isdir (dirname td)) = true /\ fs_sticky fs (dirname td) = true /\ fs_true fs (Islink (dirname td)) = false.
+Proof.
+  intros fs uid v td vol. unfold top_events_of.
+  destruct (fs_true fs (Prog.Exists _)); [|intros []].
+  destruct (fs_true fs (Isdir _)) eqn:Hd; cbn [andb]; [|intros [H|[]]; discriminate].
+  destruct (fs_sticky fs _) eqn:Hs; [|intros [H|[]]; discriminate].
+  destruct (fs_true fs (Islink _)) eqn:Hl; intros [H|[]]; [discriminate|].
+  injection H as Ht Hv. subst td vol. repeat split; assumption.
+Qed.
+Print Assumptions shared_directory_listed_only_when_secure.
+
+Theorem shared_directory_searched_only_when_secure : forall fs uid v,
+  In (volume_trash_dir1 v uid, v) (restore_dirs_of_volume fs uid v) ->
+  volume_trash_dir1 v uid <> volume_trash_dir2 v uid ->
+  rule_of fs (volume_trash_dir1 v uid) = TopValid.
+Proof.
+  intros fs uid v. unfold restore_dirs_of_volume. intros Hin Hne. apply in_app_or in Hin. destruct Hin as [Hin|[Hin|[]]].
+  - destruct (rule_of fs (volume_trash_dir1 v uid)); try (destruct Hin; fail). reflexivity.
+  - exfalso. apply Hne. injection Hin as H. symmetry. exact H.
+Qed.
+Print Assumptions shared_directory_searched_only_when_secure.
